@@ -1316,6 +1316,28 @@ pub fn c08(tier: Tier, caps: &Caps) -> Vec<FamilyReport> {
         &|i| c08_after_connack_rx(&wide[(i / 2) as usize], i % 2 == 1, WIDE_RX),
         &|i| json!({"phase": "after-connack", "bytes": mr::hex(&wide[(i / 2) as usize]), "fragmented": i % 2 == 1, "rx": WIDE_RX}),
     ));
+    // the four-byte band of the remaining length: a receive buffer of just over 2 MiB
+    const HUGE_RX: usize = 2_097_152 + 64;
+    let huge: Vec<Vec<u8>> = [2_097_151usize, 2_097_152, 2_097_153, 2_097_200]
+        .iter()
+        .map(|rem| {
+            // PUBLISH QoS 0, topic "t", no properties, payload filling the rest
+            let mut p = vec![0x30];
+            mr::put_varint(&mut p, *rem as u32);
+            p.extend_from_slice(&[0x00, 0x01, b't', 0x00]);
+            p.extend(std::iter::repeat(0x5Au8).take(rem - 4));
+            p
+        })
+        .collect();
+    out.push(sweep(
+        "C08-four-byte-remaining-length-in-a-2-MiB-buffer",
+        "C08",
+        huge.len() as u64,
+        caps,
+        json!({"cases": "inbound QoS 0 PUBLISH with remaining length 2097151 (largest three-byte form), 2097152, 2097153 and 2097200 (four-byte forms) delivered whole into a receive buffer of 2097216 bytes", "rx": HUGE_RX}),
+        &|i| c08_after_connack_rx(&huge[i as usize], false, HUGE_RX),
+        &|i| json!({"phase": "after-connack", "bytes": mr::hex(&huge[i as usize]), "fragmented": false, "rx": HUGE_RX}),
+    ));
     // CONNACK boundary values for a client that configured no identifier, 300-byte buffer
     let mut wc: Vec<Vec<u8>> = Vec::new();
     for p in c08_wide_connack_grammar() {
